@@ -149,7 +149,7 @@ func (fv *funcVerifier) evalTuple(st *State, e ast.Expr, n int) ([]smt.Term, []t
 		fv.evalExpr(st, x.X)
 		t := fv.typeOf(x.Type)
 		ok := fv.c.Fresh("taok", smt.Bool)
-		v := fv.fresh(st, "tassert", t)
+		v := fv.freshNonNil(st, "tassert", t)
 		return []smt.Term{fv.c.Let("ta", smt.Ite(ok, v, fv.so.zero(t))), ok}, []types.Type{t, types.Typ[types.Bool]}
 	case *ast.UnaryExpr:
 		if x.Op == token.ARROW {
